@@ -20,6 +20,9 @@ pub struct GatedSpec {
     pub args: Vec<std::ffi::OsString>,
     /// Fault plan of this process (ordinals are its own).
     pub plan: String,
+    /// Standard output is a pipe whose reader goes away once the process has parked at its first
+    /// gated call (`lace ... | head -1`: what was printed until then has been read).
+    pub stdout_reader_leaves: bool,
 }
 
 #[derive(Debug, Clone)]
@@ -44,6 +47,7 @@ struct Gated {
     buffer: Vec<u8>,
     pending: Option<(u64, String)>,
     exit: Option<GatedExit>,
+    stdout: Option<std::process::ChildStdout>,
 }
 
 fn pipe() -> Option<(OwnedFd, OwnedFd)> {
@@ -131,18 +135,20 @@ pub fn run_gated(
             .env("FAULTFS_DIR", watch)
             .env("FAULTFS_GATE", "198,199")
             .stdin(Stdio::null())
-            .stdout(Stdio::null())
+            .stdout(if spec.stdout_reader_leaves { Stdio::piped() } else { Stdio::null() })
             .stderr(Stdio::piped());
         unsafe {
             cmd.pre_exec(move || {
                 // Fixed descriptor numbers for the shim (dup2 clears close-on-exec)
+                libc::prctl(libc::PR_SET_PDEATHSIG, libc::SIGKILL);
                 if libc::dup2(req_w_fd, 198) < 0 || libc::dup2(ack_r_fd, 199) < 0 {
                     return Err(std::io::Error::last_os_error());
                 }
                 Ok(())
             });
         }
-        let child = cmd.spawn().map_err(|e| format!("spawn: {}", e))?;
+        let mut child = cmd.spawn().map_err(|e| format!("spawn: {}", e))?;
+        let stdout = child.stdout.take();
         drop(req_w);
         drop(ack_r);
         procs.push(Gated {
@@ -152,6 +158,7 @@ pub fn run_gated(
             buffer: Vec::new(),
             pending: None,
             exit: None,
+            stdout,
         });
     }
 
@@ -176,6 +183,9 @@ pub fn run_gated(
                 return Err("a gated process neither parked nor exited within the guard".into());
             }
         }
+        // The reader of this process's standard output has seen what was printed so far; now
+        // it leaves
+        procs[i].stdout = None;
     }
     loop {
         let parked: Vec<usize> = (0..procs.len()).filter(|i| procs[*i].pending.is_some()).collect();
